@@ -78,4 +78,21 @@ theorem C10_start_guard :
     (E.eventLoop 1 (E.evalEvents 0) (E.evalEvents 1) [0] s).te = [] ∧ (E.eventLoop 1 (E.evalEvents 0) (E.evalEvents 1) [0] s).stop = false := by
   decide +kernel
 
+/-- soundness across steps (D25): whichever way the event block of an accepted step is left — nothing detected, events recorded,
+a terminal event, or an event abandoned because it lies within `event_duration` of the start — the values the next step compares
+with are the event functions at the end of the step just taken, never an intermediate evaluation of the bisection.  A sign change
+seen by the next step is therefore a sign change between two step ends. -/
+theorem C10_value_is_step_end {α : Type} (E : RodasEnv α) (dt : α) (s : RodasState α) (h : E.events.isEmpty = false) :
+    (E.doEvents dt s).value = E.evalEvents s.t := by
+  rw [E.doEvents_value, h]; rfl
+
+/-- the hypothesis is satisfiable and the statement is about a run that abandons an event: the start-guard example above -/
+example :
+    let E : RodasEnv ℚ := { O := ratO, spacing := fun _ => 0, uround := 0, tiny := 0, half := 1/2, c128 := 128,
+                            tspan := [0, 1], opt := ⟨1/5, 6, 6, none, none, false, 1/100000000⟩,
+                            events := [⟨1/1000000000, 0, true⟩] }
+    let s : RodasState ℚ := { E.init with t := 1, told := 0 }
+    E.events.isEmpty = false ∧ (E.doEvents 1 s).te = [] ∧ (E.doEvents 1 s).value = [1 - 1/1000000000] := by
+  decide +kernel
+
 end Solverz
